@@ -69,7 +69,13 @@ def main():
                     "detected_by": detection,
                     "detection_cmd": f"bin/seed_check.sh seeded/{prop}-{n}/patch.diff quick {prop}   (scratch copy of /repo with the patch applied, VERIF_REPO=<copy> bin/vcheck {prop})",
                     "origin": "written by an independent sub-agent that saw only the property text and its own scratch worktree"}
-            json.dump(meta, open(os.path.join(out, "meta.json"), "w"), indent=1)
+            mf = os.path.join(out, "meta.json")
+            if os.path.exists(mf) and not detection:      # keep what bin/seed_matrix.py recorded
+                try:
+                    meta["detected_by"] = json.load(open(mf)).get("detected_by", [])
+                except Exception:
+                    pass
+            json.dump(meta, open(mf, "w"), indent=1)
             index.append((f"{prop}-{n}", [x["result"] for x in detection]))
     for k, v in index:
         print(k, v)
